@@ -100,7 +100,8 @@ func (h *Authenticate) Unmarshal(v base.HeaderValue) error {
 
 		realmReceived := false
 
-		for k, rv := range kvs {
+		for _, k := range sortedKeys(kvs) {
+			rv := kvs[k]
 			v := rv
 
 			if k == "realm" {
@@ -121,7 +122,8 @@ func (h *Authenticate) Unmarshal(v base.HeaderValue) error {
 		realmReceived := false
 		nonceReceived := false
 
-		for k, rv := range kvs {
+		for _, k := range sortedKeys(kvs) {
+			rv := kvs[k]
 			v := rv
 
 			switch k {
